@@ -22908,3 +22908,48 @@ pub mod verif_hooks {
 		part.check_onchain_timeout(height)
 	}
 }
+
+/// Verification hooks (feature `_verif_hooks` only); see `ln::verif_hooks`.
+#[cfg(feature = "_verif_hooks")]
+pub mod verif_hooks_monupd {
+	use super::*;
+	use crate::ln::channel::verif_hooks_monupd::MonUpdView;
+
+	/// The [`MonUpdView`] of the funded channel `channel_id` with `counterparty` together with the
+	/// update ids of the peer's `in_flight_monitor_updates` entry for that channel and the number
+	/// of `monitor_update_blocked_actions` queued for it. The view is `None` if the channel is not
+	/// (or no longer) a funded channel of `node`.
+	pub fn monupd_view<
+		M: chain::Watch<SP::EcdsaSigner>,
+		T: BroadcasterInterface,
+		ES: EntropySource,
+		NS: NodeSigner,
+		SP: SignerProvider,
+		F: FeeEstimator,
+		R: Router,
+		MR: MessageRouter,
+		L: Logger,
+	>(
+		node: &ChannelManager<M, T, ES, NS, SP, F, R, MR, L>, counterparty: &PublicKey,
+		channel_id: &ChannelId,
+	) -> Option<(Option<MonUpdView>, Vec<u64>, usize)> {
+		let per_peer_state = node.per_peer_state.read().unwrap();
+		let peer_state = per_peer_state.get(counterparty)?.lock().unwrap();
+		let view = peer_state
+			.channel_by_id
+			.get(channel_id)
+			.and_then(|chan| chan.as_funded())
+			.map(|chan| chan.verif_monupd_view());
+		let in_flight = peer_state
+			.in_flight_monitor_updates
+			.get(channel_id)
+			.map(|(_, updates)| updates.iter().map(|u| u.update_id).collect())
+			.unwrap_or_default();
+		let blocked_actions = peer_state
+			.monitor_update_blocked_actions
+			.get(channel_id)
+			.map(|a| a.len())
+			.unwrap_or(0);
+		Some((view, in_flight, blocked_actions))
+	}
+}
